@@ -13,8 +13,16 @@ import time
 
 VERIF = os.path.dirname(os.path.dirname(os.path.abspath(__file__)))
 REPO = os.environ.get("VERIF_REPO", "/repo")
-COQ = os.path.join(VERIF, "coq")
 WORK = os.path.join(VERIF, ".work")
+COQ_MAIN = os.path.join(VERIF, "coq")
+if os.path.realpath(REPO) != "/repo":
+    # checks pointed at a scratch copy of the repository (VERIF_REPO) use a private copy of the
+    # Coq tree, so that a differing Generated.v never disturbs checks running against /repo
+    _tag = hashlib.sha1(os.path.realpath(REPO).encode()).hexdigest()[:8]
+    WORK = os.path.join(WORK, "alt-" + _tag)
+    COQ = os.path.join(WORK, "coq")
+else:
+    COQ = COQ_MAIN
 PROPS = os.path.join(VERIF, "harness", "props")
 OVERLAYS = os.path.join(VERIF, "harness", "overlays")
 GOENV = dict(os.environ, GOFLAGS="-mod=mod", GOPROXY="off", GOSUMDB="off", GOTOOLCHAIN="local")
@@ -179,7 +187,18 @@ def generate_coq(all_specs):
     return "\n".join(lines) + "\n"
 
 
+def sync_alt_coq():
+    """for VERIF_REPO runs: mirror /verif/coq (sources and compiled files, timestamps kept) into COQ"""
+    if COQ == COQ_MAIN:
+        return
+    os.makedirs(COQ, exist_ok=True)
+    sh(["rsync", "-a", "--delete", "--exclude", "gen/Generated.v*", "--exclude", "gen/.Generated*",
+        "--exclude", "Makefile*", "--exclude", ".Makefile.d", "--exclude", "_CoqProject",
+        COQ_MAIN + "/", COQ + "/"], timeout=600)
+
+
 def regenerate():
+    sync_alt_coq()
     specs = []
     for pid in prop_ids():
         specs.extend(load_prop(pid).get("generated", []))
@@ -225,11 +244,30 @@ def make(targets, timeout=1800, jobs=16):
     return sh(["make", "-j%d" % jobs, "-k"] + targets, cwd=COQ, timeout=timeout)
 
 
-def forbidden_scan():
+def dep_closure(rels):
+    """transitive closure of `From MevVerif Require Import|Export a.b ...` starting at rels (paths relative to COQ)"""
+    seen, todo = set(), list(rels)
+    while todo:
+        rel = todo.pop()
+        if rel in seen or not os.path.exists(os.path.join(COQ, rel)):
+            continue
+        seen.add(rel)
+        txt = open(os.path.join(COQ, rel), errors="replace").read()
+        for m in re.finditer(r"From\s+MevVerif\s+Require\s+(?:Import\s+|Export\s+)?(.*?)\.(?=\s|$)", txt, flags=re.S):
+            for mod in m.group(1).split():
+                todo.append(mod.replace(".", "/") + ".v")
+        for m in re.finditer(r"Require\s+(?:Import\s+|Export\s+)?(.*?)\.(?=\s|$)", txt, flags=re.S):
+            for mod in m.group(1).split():
+                if mod.startswith("MevVerif."):
+                    todo.append(mod[len("MevVerif."):].replace(".", "/") + ".v")
+    return sorted(seen)
+
+
+def forbidden_scan(rels=None):
     """grep for constructs the brief forbids; returns list of 'file:line: text'."""
     hits = []
     pat = re.compile(FORBIDDEN)
-    for rel in coq_sources():
+    for rel in (rels if rels is not None else coq_sources()):
         with open(os.path.join(COQ, rel), errors="replace") as f:
             for i, line in enumerate(f, 1):
                 if pat.search(line):
